@@ -13,7 +13,6 @@
 ##############################################################################
 """ZConfig factory datatypes for log handlers."""
 
-import codecs
 import functools
 import sys
 import urllib.parse
@@ -78,9 +77,11 @@ def check_when(when):
 def check_encoding(encoding):
     if encoding:
         try:
-            codecs.lookup(encoding)
-        except LookupError:
-            raise ValueError("unknown encoding: %r" % encoding)
+            # unknown codecs and codecs that are not text encodings
+            # (rot13, hex, base64) cannot be used to open a log file
+            "".encode(encoding)
+        except LookupError as e:
+            raise ValueError("unusable encoding %r: %s" % (encoding, e))
 
 
 class FileHandlerFactory(HandlerFactory):
